@@ -8,6 +8,8 @@
 //   aa a j      assign Any from slot j (j == a: self-assignment)
 //   ai a k / as a k / at a     assign an int / std::string / Tracked value
 //   mg a        get<T>() = other value (T = the stored type; engaged slots only): mutates in place
+//   cr a j / ar a j   take T &r = j.get<T>(), copy-construct a from j / assign a = j, then write r = other value:
+//               the copy must keep the old value (a reference taken BEFORE the copy was made)
 //   de a        destroy
 // Observers (final position only):
 //   eq a j      a == j and a != j, all ordered pairs, j == a included
@@ -54,6 +56,9 @@ inline void any_enabled(const AModel &m, bool observers, std::vector<Op> &out)
     for (int j = 0; j < 3; j++)
       if (m.s[j].present)
         out.push_back(mk("cp", t, j));
+    for (int j = 0; j < 3; j++)
+      if (m.s[j].present && m.s[j].tag != TAG_NONE)
+        out.push_back(mk("cr", t, j));
   }
   for (int i = 0; i < 3; i++) {
     if (!m.s[i].present)
@@ -61,6 +66,9 @@ inline void any_enabled(const AModel &m, bool observers, std::vector<Op> &out)
     for (int j = 0; j < 3; j++)
       if (m.s[j].present)
         out.push_back(mk("aa", i, j));
+    for (int j = 0; j < 3; j++)
+      if (j != i && m.s[j].present && m.s[j].tag != TAG_NONE)
+        out.push_back(mk("ar", i, j));
     out.push_back(mk("ai", i, 0));
     out.push_back(mk("ai", i, 1));
     out.push_back(mk("as", i, 0));
@@ -116,6 +124,12 @@ inline void any_model_apply(AModel &m, const Op &o)
     d.present = true;
     d.tag = src.tag;
     d.k = src.k;
+  } else if (is(o, "cr") || is(o, "ar")) {
+    ASlot src = m.s[o.b];
+    d.present = true;
+    d.tag = src.tag;
+    d.k = src.k;
+    m.s[o.b].k = 2;
   } else if (is(o, "mg")) {
     d.k = 2;
   } else if (is(o, "de")) {
@@ -134,6 +148,8 @@ inline std::string any_op_class(const AModel &m, const Op &o)
   if (is(o, "nt")) return "construct-from-Tracked";
   if (is(o, "cp")) return "copy-construct(from " + st(o.b) + ")";
   if (is(o, "aa")) return "assign-Any(" + ee(o.a) + " <- " + (o.a == o.b ? "itself" : st(o.b)) + ")";
+  if (is(o, "cr")) return "copy-construct(from " + st(o.b) + "), then write through a reference into the source taken before";
+  if (is(o, "ar")) return "assign-Any(" + ee(o.a) + " <- " + st(o.b) + "), then write through a reference into the source taken before";
   if (is(o, "ai")) return "assign-int(" + ee(o.a) + ")";
   if (is(o, "as")) return "assign-string(" + ee(o.a) + ")";
   if (is(o, "at")) return "assign-Tracked(" + ee(o.a) + ")";
